@@ -241,6 +241,16 @@ func sigLeafSelNilMap(c fw.Case, out []string, msg string) bool {
 	return ok && strings.HasPrefix(ln, "nb.leafsel") && strings.Contains(ln, " ctx ")
 }
 
+// sigTreeSlice: the proposal controller's validate phase panics in tree.addPathToTree on a live
+// stored path with an element in which `]` comes before `=` (or `=` without `[`).
+func sigTreeSlice(c fw.Case, out []string, msg string) bool {
+	if !strings.Contains(msg, "panic downstream sliceBounds") {
+		return false
+	}
+	ln, ok := crashLine(c, msg)
+	return ok && strings.HasPrefix(ln, "nb.set")
+}
+
 func outcomeTags(c fw.Case, out []string) []string {
 	var tags []string
 	for i, ln := range c.Script {
@@ -303,9 +313,23 @@ func shrinkCase(c fw.Case) []fw.Case {
 	return out
 }
 
-// agree: the twin answers `either` where the nil-ness of a controller-written configuration's
-// value map decides between a crash and a normal answer.
+// agree: where the twin does not decide, it answers with a set of outcomes.  `either`: the
+// nil-ness of a controller-written configuration's value map decides between a crash and a normal
+// answer.  `maybe X`: the request consults a configuration written by the controllers, which may
+// not exist at all (a transaction can stall behind an earlier one waiting for a master): X, or
+// "no such configuration".
 func agree(ln, real, twin string) bool {
+	if strings.HasPrefix(twin, "maybe ") {
+		x := strings.TrimPrefix(twin, "maybe ")
+		if strings.HasPrefix(real, "err ") && strings.HasSuffix(real, " noConfig") {
+			return true
+		}
+		return real == x || agreeEither(real, x)
+	}
+	return agreeEither(real, twin)
+}
+
+func agreeEither(real, twin string) bool {
 	return twin == "either" && (real == "reached" || real == "panic nilMapWrite")
 }
 
@@ -317,7 +341,7 @@ var Prop = &fw.Prop{
 		"Get (every encoding and data type, wildcards and regular-expression metacharacters in names and key values, prefix on/off, target *, no paths, extensions), Subscribe streams (no prefix, entries without path, poll before subscribe, duplicate, unknown message), " +
 		"admin RollbackTransaction of any index, LeafSelectionQuery with/without change context, GetTransaction, Capabilities; plus the text primitives (MatchWildcardRegexp, ExtractIndexNames, RemovePathIndices, AnonymizePathIndices, FindPathFromModel, IsPathValid) on raw strings and, exhaustively, on every string of length <= 3 (thorough: 4) over {a * . \\ [ ] = ( $}. " +
 		"Every handler call and every reconcile step runs under recover(). Non-trivial = the case holds at least one Set, Get, Subscribe or LeafSelectionQuery.",
-	Quick: 1100, Thorough: 8000, Workers: 12,
+	Quick: 1100, Thorough: 40000, Workers: 12,
 	Gen: gen, Enumerate: enumerate,
 	NewReal:     func() fw.Real { return nbreal.New() },
 	Monitor:     monitor,
@@ -328,6 +352,7 @@ var Prop = &fw.Prop{
 	Sigs: map[string]func(fw.Case, []string, string) bool{
 		"nilOverride":   sigNilOverride,
 		"leafSelNilMap": sigLeafSelNilMap,
+		"treeSlice":     sigTreeSlice,
 	},
 }
 
